@@ -12,6 +12,7 @@ mod docs;
 mod xml;
 mod emit;
 mod json;
+mod lex;
 mod ops;
 mod outp;
 mod rng;
